@@ -24,7 +24,7 @@ BASES = ["StandardNormal", "Normal", "StudentT", "Uniform", "CondBase"]
 
 
 def bounds(tier):
-    return {"bases": BASES, "expressions": "quick: one per (combinator kind, option, child class) at depth<=1; thorough: all at depth<=2",
+    return {"bases": BASES, "expressions": "quick: one per (combinator kind, option, child class) at depth<=1, one base per composition (all five bases for leaves); thorough: all at depth<=2, one base per composition (cycling)",
             "factories": "8 configs x invert T/F x cond None/2", "levels": [0, 1], "keys": 2, "nested": "three nesting levels Transformed(Transformed(Transformed(base,b1),b2),b3) for 12 triples + merge_transforms",
             "exhaustive_within_bounds": True}
 
@@ -43,6 +43,8 @@ def enumerate_cases(tier, seed):
         for bi, base in enumerate(BASES):
             if tier == "quick" and "c" in s and bi != (4 if si % 2 else (si // 2) % 4):
                 continue  # quick: compositions alternate between the conditional base and one of the four others
+            if tier != "quick" and "c" in s and bi != (4 if si % 2 else (si // 2) % 4):
+                continue  # thorough: every composition of the full grammar to depth 2 gets one base, cycling through all five
             cases.append({"id": f"{base}|" + g.canon(s), "leg": "expr", "spec": s, "base": base, "x64": True, "seed": seed})
     for f in c01.FACTORIES:
         for inv in (True, False):
